@@ -167,6 +167,67 @@ func GenFrame(r U64, g Geo, cls int) []byte {
 	return out
 }
 
+// GenSkewedFrame fills the frame, in raster order, with a walk whose successive differences
+// have Fibonacci-skewed size categories (category P and P-1 once, P-2 twice, ... category 0
+// most often; P = BitsStored): the histogram that gives the rare large differences the longest
+// entropy codes (JPEG lossless code lengths up to the 16-bit limit, long Golomb codes, deep
+// bit-plane counts). The multiset is shuffled and repeated when the frame is larger.
+func GenSkewedFrame(r U64, g Geo) []byte {
+	P := g.BitsStored
+	maxv := (1 << P) - 1
+	fib := make([]int, P+2)
+	fib[0], fib[1] = 1, 1
+	for i := 2; i < len(fib); i++ {
+		fib[i] = fib[i-1] + fib[i-2]
+	}
+	var cats []int
+	for c := 0; c <= P; c++ {
+		for j := 0; j < fib[P-c]; j++ {
+			cats = append(cats, c)
+		}
+	}
+	for i := len(cats) - 1; i > 0; i-- {
+		j := intn(r, i+1)
+		cats[i], cats[j] = cats[j], cats[i]
+	}
+	bps := (g.BitsAllocated + 7) / 8
+	out := make([]byte, g.FrameBytes())
+	n := g.W * g.H * g.SPP
+	x := 1 << (P - 1)
+	for i := 0; i < n; i++ {
+		c := cats[i%len(cats)]
+		d := 0
+		if c > 0 {
+			lo := 1 << (c - 1)
+			d = lo + intn(r, lo)
+			if c == P {
+				d = lo
+			}
+		}
+		up := intn(r, 2) == 0
+		switch {
+		case up && x+d <= maxv:
+			x += d
+		case x-d >= 0:
+			x -= d
+		case x+d <= maxv:
+			x += d
+		default: // cannot step that far from here: go to the nearer end
+			if x > maxv/2 {
+				x = 0
+			} else {
+				x = maxv
+			}
+		}
+		o := i * bps
+		out[o] = byte(x)
+		if bps == 2 {
+			out[o+1] = byte(x >> 8)
+		}
+	}
+	return out
+}
+
 // PD builds a TestPixelData holding the given frames (the slices themselves, not copies:
 // the input-unmodified check hashes them around the call).
 func PD(g Geo, frames [][]byte) *rcodec.TestPixelData {
